@@ -23,7 +23,8 @@ man = {
         "serves_properties": [c["property_id"] for c in CHECKS],
         "kind_free_text": "repository-specific static analyser: ast program model, statement CFG with exceptional edges, "
                           "reaching definitions and interprocedural backward slices, mypy type facts, finite-domain "
-                          "abstract evaluation of decoder functions, file-system effect summaries",
+                          "abstract evaluation of decoder functions, file-system effect summaries with a typestate exploration (crash points, "
+                          "two-process interleavings) of the extracted effect sequences, tree normalisation by helper inlining",
     }],
     "checks": [],
     "not_applicable": NOT_APPLICABLE,
